@@ -18,6 +18,28 @@ same project under the neutral names and without user patterns must give the sam
 CPython's `re`).  Same-named definitions: the target may additionally define an uncalled function / class with the name
 and signature of a callee of a followed module; dedicated rows (`same_name_rows`) compare both directions exactly.
 
+File layouts, star chains across package levels, the target's path, cycles through the target (round 3):
+  * two files competing for one module name: a package `M/__init__.py` next to a STALE module `M.py` (same names, same
+    signatures, other bodies; `add_stale_twins`, 30 % of the projects), and — dedicated projects — a module `M.py` next to a
+    plain directory `M/` without `__init__.py`, at top level and inside packages, the target itself included.  Expected =
+    what Python imports: CPython's `importlib.util.find_spec` (checked for every module name of every project) and the
+    file of the object each spelled callee is bound to; the single-file reference holds the definitions of THAT file.
+    Stage `locator`: the real `find_module_name_and_spec` vs the Lean model `Locator.findModuleNameAndSpec` (op `locator`)
+    vs the Lean spec `Spec.firstMatch` vs CPython, per module name;
+  * star re-export chains that cross package levels with a same-named DECOY module at the level a relative import would
+    reach if it were resolved against the wrong file (forms reexport-star-pkg2 / -pkg3 / -pkg2-named / -pkg2-up /
+    star-of-init-star: the chain may start in the target, in a followed module, in an `__init__`).  Stage `star_expand`:
+    the symbols the real `expand_starred_imports` appends for every file holding a star import vs `StarChain.expandFile`,
+    which derives the nested qualified names itself;
+  * the target named by relative path, `./`, absolute path, through `dir/../`, and from another working directory with
+    the project on PYTHONPATH (absolute and relative): every project gets a spelling; a project that fails under a
+    spelling is re-run under the plain relative one (signature `target-path-spelling-changes-outcome:*` iff that works);
+  * import cycles THROUGH THE TARGET: a callee of a moved function stays in the target and the followed module imports
+    the target back (`back-import` / `back-from` / `back-relative-*`; the target's own imports then follow its
+    definitions so that the cycle is valid Python, CPython imports the target first); half of these projects run under
+    an absolute target path.  Dedicated rows (`cycle_rows`) compare call-backs into target functions / static methods
+    exactly, under four spellings.
+
 Self-checks (internal errors, never violations): CPython itself imports every split project and must bind
 each spelled callee to the moved definition; the Lean spec `Spec.ImportEquiv.expected` must agree with
 CPython.  Correspondence (Tie B): for each cross-module call, the Lean model (`callTargetFor` +
@@ -75,7 +97,25 @@ FORMS = {
     "reexport-init-level2":   dict(pkg=False, style="name"),
     "import-pkg-attr":        dict(pkg=False, style="prefix"),
     "pkg-submodule-imported": dict(pkg=False, style="prefix"),
+    # ---- star re-export chains that CROSS package levels, with a same-named decoy module at the level a relative
+    #      import would reach if it were resolved against the wrong file (round 3)
+    # pkg/__init__: from .sub import *  /  pkg/sub/__init__: from .x import *  /  pkg/sub/x.py: def k  [decoy pkg/x.py]
+    "reexport-star-pkg2":       dict(pkg=False, style="name"),
+    # three levels: pkg/__init__ -> pkg/s1/__init__ -> pkg/s1/s2/__init__ -> pkg/s1/s2/x.py  [decoys pkg/x.py, pkg/s1/x.py]
+    "reexport-star-pkg3":       dict(pkg=False, style="name"),
+    # the inner hop imports the NAME: pkg/sub/__init__: from .x import k  [decoy pkg/x.py]
+    "reexport-star-pkg2-named": dict(pkg=False, style="name"),
+    # the inner hop goes UP: pkg/sub/__init__: from ..x import *  /  pkg/x.py: def k  [decoys x.py, pkg/sub/x.py]
+    "reexport-star-pkg2-up":    dict(pkg=False, style="name"),
+    # the star chain starts in the importing module itself (target or followed module):
+    # importer: from pkg import *  /  pkg/__init__: from .x import *  /  pkg/x.py: def k  [decoy x.py next to the importer]
+    "star-of-init-star":        dict(pkg=False, style="name"),
 }
+# forms added in round 3: fewer repetitions per (form, kind) cell — they share every mechanism but the file layout
+LAYOUT_FORMS = ("reexport-star-pkg2", "reexport-star-pkg3", "reexport-star-pkg2-named", "reexport-star-pkg2-up",
+                "star-of-init-star")
+# how a module of a followed module reaches a function that STAYS in the target (import cycle through the target)
+BACK_FORMS = ("back-import", "back-from", "back-relative-from", "back-relative-module")
 KINDS = ("func", "class", "static")
 
 
@@ -156,6 +196,22 @@ def respell(src, ent, spelled):
     return head + "\n" + re.sub(rf"(?<![\w.]){re.escape(ent.spelled)}\(", spelled + "(", body)
 
 
+def twin_source(e, v, tag):
+    """A definition with the NAME and SIGNATURE of entity `e` whose body contributes the distinctive attribute
+    `<tag>_<v>` instead of the entity's own marks (a decoy: Python never binds a generated call to it)."""
+    node = ast.parse(e.src).body[0]
+    if e.kind == "func":
+        first = (node.args.posonlyargs + node.args.args + node.args.kwonlyargs)[0].arg
+        head = e.src.split("\n", 1)[0]
+        return f"{head}\n    return {first}.{tag}_{v}\n"
+    if e.kind == "class":
+        a = node.body[0].args.args[1].arg
+        return f"class {v}:\n    def __init__(self, {a}):\n        self.made_{tag}_{v} = {a}.{tag}_{v}\n"
+    sm = node.body[0]
+    a = sm.args.args[0].arg
+    return f"class {v}:\n    @staticmethod\n    def {sm.name}({a}):\n        return {a}.{tag}_{v}\n"
+
+
 # ------------------------------------------------------------------ splitting
 
 class Edge:
@@ -171,8 +227,9 @@ class Edge:
 
 
 class Split:
-    def __init__(self, rng, ents, order, layout, want):
+    def __init__(self, rng, ents, order, layout, want, back_p=0.0):
         self.rng, self.ents, self.order = rng, ents, order
+        self.back_p = back_p              # probability that the project has an import cycle through the target
         self.target_mod = {"root": "target", "pkg": "tp.target", "pkg2": "tp.tq.target"}[layout]
         self.want = want                  # list of (form, kind) still to be covered (mutated)
         self.n = 0
@@ -180,6 +237,11 @@ class Split:
         self.loc = {}                     # entity -> module
         self.edges = []
         self.shadows = {}                 # entity name -> source of a same-named definition placed in the target
+        self.decoys = {}                  # module name (never imported by Python) -> entities it defines a decoy of
+        self.layout_tags = []             # what the file layout of this project contains beyond modules and packages
+        self.stale = {}                   # module -> "package-next-to-stale-module"
+        self.hidden = {}                  # module -> how a plain directory of its name sits next to it
+        self.back = []                    # back edges (followed module -> target), subset of self.edges
         self.ensure(self.target_mod, False)
         # ensure() creates the parent packages (tp, tp.tq) with empty __init__ files
 
@@ -320,6 +382,51 @@ class Split:
             else:
                 self.imp(importer, f"from {pkg} import {k}", {"k": "from", "module": pkg, "name": k})
                 prefix = None
+        elif form in ("reexport-star-pkg2", "reexport-star-pkg2-named", "reexport-star-pkg3", "reexport-star-pkg2-up"):
+            pkg = self.fresh("zr")
+            x = self.fresh("zx")
+            if form == "reexport-star-pkg3":
+                s1 = f"{pkg}.{self.fresh('zq')}"
+                s2 = f"{s1}.{self.fresh('zq')}"
+                hops, mod, decoys = [pkg, s1, s2], f"{s2}.{x}", [f"{pkg}.{x}", f"{s1}.{x}"]
+            elif form == "reexport-star-pkg2-up":
+                sub = f"{pkg}.{self.fresh('zq')}"
+                hops, mod, decoys = [pkg, sub], f"{pkg}.{x}", [x, f"{sub}.{x}"]
+            else:
+                sub = f"{pkg}.{self.fresh('zq')}"
+                hops, mod, decoys = [pkg, sub], f"{sub}.{x}", [f"{pkg}.{x}"]
+            for h in hops:
+                self.ensure(h, True)
+            self.ensure(mod, False)
+            chain = len(hops)
+            via = list(hops)
+            for i, h in enumerate(hops[:-1]):
+                nxt = hops[i + 1].rsplit(".", 1)[1]
+                self.imp(h, f"from .{nxt} import *", {"k": "relstar", "level": 1, "module": nxt})
+            if form == "reexport-star-pkg2-named":
+                self.imp(hops[-1], f"from .{x} import {k}", {"k": "rel", "level": 1, "module": x, "name": k})
+            elif form == "reexport-star-pkg2-up":
+                self.imp(hops[-1], f"from ..{x} import *", {"k": "relstar", "level": 2, "module": x})
+            else:
+                self.imp(hops[-1], f"from .{x} import *", {"k": "relstar", "level": 1, "module": x})
+            for d in decoys:
+                self.decoys.setdefault(d, []).append(v)
+            self.imp(importer, f"from {pkg} import {k}", {"k": "from", "module": pkg, "name": k})
+            prefix = None
+        elif form == "star-of-init-star":
+            chain = 1
+            pkg = self.fresh("zr")
+            self.ensure(pkg, True)
+            x = self.fresh("zx")
+            mod = f"{pkg}.{x}"
+            self.ensure(mod, False)
+            via = [pkg]
+            self.imp(pkg, f"from .{x} import *", {"k": "relstar", "level": 1, "module": x})
+            self.imp(importer, f"from {pkg} import *", {"k": "star", "module": pkg})
+            # the decoy sits where `.x` would lead if it were resolved against the IMPORTER's file
+            base = importer.rsplit(".", 1)[0] + "." if "." in importer else ""
+            self.decoys.setdefault(base + x, []).append(v)
+            prefix = None
         elif form == "pkg-submodule-imported":
             pkg = self.fresh("zr")
             self.ensure(pkg, True)
@@ -353,12 +460,21 @@ class Split:
                 moved.add(n)
         if not moved:
             moved.add(r.choice(roots or callees))
+        # import cycle THROUGH THE TARGET: some callee of a moved function stays in the target file and the followed
+        # module imports the target back to call it (the moved set is otherwise closed downwards)
+        stay = set()
+        if self.back_p and r.random() < self.back_p:
+            cands = [c for n in self.order if n in moved for c in ents[n].calls if ents[c].kind in ("func", "static")]
+            for c in r.sample(cands, min(len(cands), r.choice([1, 1, 2]))):
+                if ents[c].caller in moved and ents[c].caller not in stay and not any(ents[x].caller == c for x in stay):
+                    stay.add(c)
+                    moved.discard(c)
         changed = True
         while changed:
             changed = False
             for n in list(moved):
                 for c in ents[n].calls:
-                    if c not in moved:
+                    if c not in moved and c not in stay:
                         moved.add(c)
                         changed = True
         for n in self.order:
@@ -372,14 +488,59 @@ class Split:
                 if ents[n].caller in self.loc:
                     self.place(n)
                     todo.remove(n)
+        for n in self.order:
+            if n in stay:
+                self.place_back(n)
         return self
+
+    def place_back(self, w):
+        """`w` stays in the target; its caller lives in a followed module, which imports the target back."""
+        e = self.ents[w]
+        importer = self.loc[e.caller]
+        assert importer != self.target_mod
+        r, t = self.rng, self.target_mod
+        tpkg = t.rsplit(".", 1)[0] if "." in t else None
+        tleaf = t.rsplit(".", 1)[-1]
+        forms = ["back-import", "back-import"]
+        if e.kind == "func":
+            forms += ["back-from", "back-from"]
+        if tpkg is not None and "." in importer and importer.rsplit(".", 1)[0] == tpkg:
+            forms += ["back-relative-module"] * 2 + (["back-relative-from"] * 2 if e.kind == "func" else [])
+        form = r.choice(forms)
+        k = e.import_name
+        if form == "back-import":
+            if "." in t:        # `import p.m` alone is not followed (known finding): bind the dotted module to an alias
+                a = self.fresh("za")
+                self.imp(importer, f"import {t} as {a}", {"k": "plain", "module": t, "asname": a})
+                prefix = a
+            else:
+                self.imp(importer, f"import {t}", {"k": "plain", "module": t})
+                prefix = t
+        elif form == "back-from":
+            self.imp(importer, f"from {t} import {k}", {"k": "from", "module": t, "name": k})
+            prefix = None
+        elif form == "back-relative-from":
+            self.imp(importer, f"from .{tleaf} import {k}", {"k": "rel", "level": 1, "module": tleaf, "name": k})
+            prefix = None
+        else:
+            self.imp(importer, f"from . import {tleaf}", {"k": "rel", "level": 1, "module": None, "name": tleaf})
+            prefix = tleaf
+        spelled = e.spelled if prefix is None else f"{prefix}.{e.spelled}"
+        ed = Edge(e.caller, w, importer, t, form, e.kind, spelled, t.count(".") + 1, 0, e.spelled, [])
+        self.edges.append(ed)
+        self.back.append(ed)
 
     def source_of(self, mod):
         m = self.modules[mod]
         by_caller = {}
         for ed in self.edges:
             by_caller.setdefault(ed.u, []).append(ed)
-        out = [l for l, _ in m["imports"]]
+        imports = [l for l, _ in m["imports"]]
+        # a target that is imported back by a followed module: its own imports come AFTER its definitions, so that the
+        # cycle is valid Python whichever `from` forms it uses (the target is imported first; every name a followed
+        # module takes from it is bound by then)
+        bottom = mod == self.target_mod and bool(self.back)
+        out = [] if bottom else list(imports)
         if out:
             out.append("")
         # classes first, as in the single-file version (a static method resolves only if its class comes earlier)
@@ -392,14 +553,84 @@ class Split:
             # same-named definitions: never called, never imported — they must not change anything
             for n in sorted(self.shadows, key=lambda n: self.ents[n].kind == "func"):
                 out.append(self.shadows[n])
+        if bottom and imports:
+            out += [""] + imports
         return "\n".join(out) + ("\n" if out else "")
+
+    def path_of(self, mod):
+        return mod.replace(".", "/") + ("/__init__.py" if self.modules[mod]["pkg"] else ".py")
+
+    def twins_text(self, vs, tag):
+        return "\n".join(twin_source(self.ents[v], v, tag) for v in sorted(vs, key=lambda n: self.ents[n].kind == "func"))
 
     def files(self):
         fs = {}
         for mod, m in self.modules.items():
-            path = mod.replace(".", "/") + ("/__init__.py" if m["pkg"] else ".py")
-            fs[path] = self.source_of(mod)
+            fs[self.path_of(mod)] = self.source_of(mod)
+        # files Python never imports: same-named decoy modules, the stale module file next to a package, what lies in a
+        # plain directory (no __init__.py) next to a module
+        for mod, vs in self.decoys.items():
+            fs[mod.replace(".", "/") + ".py"] = self.twins_text(vs, "decoy")
+        for mod, vs in self.stale.items():
+            fs[mod.replace(".", "/") + ".py"] = self.twins_text(vs, "stale")
+        for mod, kind in self.hidden.items():
+            d = mod.replace(".", "/")
+            if kind == "data-file":
+                fs[d + "/notes.txt"] = "not python\n"
+            else:
+                fs[d + "/zhelper.py"] = "def in_plain_directory(a):\n    return a.in_plain_directory\n"
         return fs
+
+    def all_module_names(self):
+        return list(self.modules) + [d for d in self.decoys if d not in self.modules]
+
+    # -------------------------------------------------- file layouts in which two files compete for one module name
+    def add_stale_twins(self, rng, p_each=0.5):
+        """A module that "grew into a package": the definitions live in `M/__init__.py`, a stale `M.py` with the
+        same names and signatures is left next to it.  Python imports the package (a regular package shadows a
+        module of the same name in one path entry)."""
+        for mod, m in list(self.modules.items()):
+            if m["pkg"] or mod == self.target_mod or not m["defs"] or rng.random() >= p_each:
+                continue
+            if any(js["k"] in ("rel", "relstar") for _, js in m["imports"]):
+                continue          # relative imports of a module would change meaning inside an __init__
+            m["pkg"] = True
+            self.stale[mod] = list(m["defs"])
+        if self.stale:
+            self.layout_tags.append("package-next-to-stale-module")
+        return self
+
+    def add_hidden_dir(self, rng):
+        """ONE module M.py gets a plain directory M/ (no __init__.py) next to it; Python still imports M.py (a
+        regular module beats a namespace portion)."""
+        cands = [mod for mod, m in self.modules.items() if not m["pkg"] and (mod != self.target_mod or self.back)
+                 and (m["defs"] or m["imports"])]
+        if not cands:
+            return self
+        mod = rng.choice(cands)
+        self.hidden[mod] = rng.choice(["data-file", "python-file"])
+        self.layout_tags.append("module-next-to-plain-directory")
+        return self
+
+    def hidden_reached_by(self):
+        """how import statements of the project name the module that has a plain directory next to it"""
+        kinds = set()
+        for mod in self.hidden:
+            for imod, m in self.modules.items():
+                for _, js in m["imports"]:
+                    if js["k"] in ("rel", "relstar"):
+                        parts = imod.split(".") if m["pkg"] else imod.split(".")[:-1]
+                        base = parts[:len(parts) - (js["level"] - 1)]
+                        full = ".".join(base + ([js["module"]] if js.get("module") else []))
+                        names = [full] + ([f"{full}.{js['name']}"] if js["k"] == "rel" else [])
+                        if mod in names:
+                            kinds.add("relative-import")
+                    else:
+                        full = js["module"]
+                        names = [full] + ([f"{full}.{js['name']}"] if js["k"] == "from" else [])
+                        if mod in names or any(n.startswith(mod + ".") for n in names):
+                            kinds.add("absolute-import")
+        return "+".join(sorted(kinds)) or "never-imported"
 
     def spec_project(self):
         mods = []
@@ -410,7 +641,19 @@ class Split:
                 members = [e.spelled.split(".", 1)[1]] if e.kind == "static" else []
                 decls.append({"k": "def", "name": e.import_name, "isClass": e.kind != "func", "members": members})
             mods.append({"name": mod, "isPkg": m["pkg"], "decls": decls})
-        return mods
+
+        def twin_decls(vs):
+            out = []
+            for n in sorted(vs, key=lambda n: self.ents[n].kind == "func"):
+                e = self.ents[n]
+                out.append({"k": "def", "name": e.import_name, "isClass": e.kind != "func",
+                            "members": [e.spelled.split(".", 1)[1]] if e.kind == "static" else []})
+            return out
+
+        # the files Python must NOT pick come FIRST: the spec has to choose by Python's rule, not by position
+        extra = [{"name": mod, "isPkg": False, "decls": twin_decls(vs)} for mod, vs in self.stale.items()]
+        extra += [{"name": mod, "isPkg": False, "decls": twin_decls(vs)} for mod, vs in self.decoys.items()]
+        return extra + mods
 
     # -------------------------------------------------- same-named definitions in the target
     def add_shadows(self, rng, p_each=0.5):
@@ -466,6 +709,9 @@ class Split:
         self.modules = {rn(mod): {"pkg": m["pkg"], "imports": [(rn(l), deep(js)) for l, js in m["imports"]], "defs": m["defs"]}
                         for mod, m in self.modules.items()}
         self.loc = {k: rn(v) for k, v in self.loc.items()}
+        self.decoys = {rn(k): v for k, v in self.decoys.items()}
+        self.stale = {rn(k): v for k, v in self.stale.items()}
+        self.hidden = {rn(k): v for k, v in self.hidden.items()}
         for ed in self.edges:
             ed.importer, ed.module, ed.spelled = rn(ed.importer), rn(ed.module), rn(ed.spelled)
             ed.hops = [rn(h) for h in ed.hops]
@@ -602,14 +848,89 @@ def same_name_rows(rng, i):
     return rows
 
 
+def cycle_rows(rng, i):
+    """Import cycles THROUGH THE TARGET in which the followed module calls back into a target function, compared exactly
+    with the single-file program, under several spellings of the target path.  With an absolute target path the import
+    walk meets the target file again under the very path it was entered with.
+    -> dicts(label, kind, files, single, target, exact=[(function, role)])"""
+    par = rng.choice(["b", "item", f"v{i}"])
+    A = f"zca{i}"
+    rows = []
+    # (1) plain call-back: target -> A.fa -> target.base
+    for back, call in ((f"from target import base{i}", f"base{i}"), ("import target", f"target.base{i}")):
+        rows.append({"label": "callback-into-target-" + ("from" if back.startswith("from") else "import"), "kind": "func",
+                     "target": "target.py",
+                     # (the import follows the definition it needs: the cycle is valid Python)
+                     "files": {"target.py": f"def base{i}({par}):\n    return {par}.base_attr\n\nfrom {A} import fa{i}\n\n"
+                                            f"def caller{i}(o):\n    return fa{i}(o)\n",
+                               f"{A}.py": f"{back}\n\ndef fa{i}(x):\n    return {call}(x.left)\n"},
+                     "single": f"def fa{i}(x):\n    return base{i}(x.left)\n\ndef base{i}({par}):\n    return {par}.base_attr\n\n"
+                               f"def caller{i}(o):\n    return fa{i}(o)\n",
+                     "exact": [(f"caller{i}", "caller-of-the-followed-function")]})
+    # (2) the called-back target function and the calling target function make the SAME call (same callee, same
+    #     argument names) to another target function
+    rows.append({"label": "same-call-text-in-caller-and-in-called-back-target-function", "kind": "func", "target": "target.py",
+                 "files": {"target.py": f"from {A} import fa{i}\n\ndef helper{i}({par}):\n    return {par}.h_attr\n\n"
+                                        f"def base{i}({par}):\n    helper{i}({par})\n    return {par}.base_attr\n\n"
+                                        f"def caller{i}({par}, c):\n    helper{i}({par})\n    return fa{i}(c)\n",
+                           f"{A}.py": f"import target\n\ndef fa{i}({par}):\n    return target.base{i}({par})\n"},
+                 "single": f"def fa{i}({par}):\n    return base{i}({par})\n\ndef helper{i}({par}):\n    return {par}.h_attr\n\n"
+                           f"def base{i}({par}):\n    helper{i}({par})\n    return {par}.base_attr\n\n"
+                           f"def caller{i}({par}, c):\n    helper{i}({par})\n    return fa{i}(c)\n",
+                 "exact": [(f"caller{i}", "caller-of-the-followed-function")]})
+    # (3) target inside a package, relative imports both ways, a static method of the target called back
+    rows.append({"label": "callback-into-target-in-package-static", "kind": "static", "target": "tp/target.py",
+                 "files": {"tp/__init__.py": "",
+                           "tp/target.py": f"from .{A} import mk{i}\n\nclass H{i}:\n    @staticmethod\n    def sm({par}):\n"
+                                           f"        return {par}.in_sm\n\ndef caller{i}(x):\n    return mk{i}(x)\n",
+                           f"tp/{A}.py": f"from . import target\n\ndef mk{i}(q):\n    return target.H{i}.sm(q.r)\n"},
+                 "single": f"class H{i}:\n    @staticmethod\n    def sm({par}):\n        return {par}.in_sm\n\n"
+                           f"def mk{i}(q):\n    return H{i}.sm(q.r)\n\ndef caller{i}(x):\n    return mk{i}(x)\n",
+                 # [interp] the module-path get `target.H` of the dotted spelling `target.H.sm()` is not part of the answer
+                 "drop_gets": [f"target.H{i}"],
+                 "exact": [(f"caller{i}", "caller-of-the-followed-function")]})
+    return rows
+
+
 # ------------------------------------------------------------------ running
 
-def run_cli(project, target, flags=()):
+# how the target file is named on the command line (the project directory is where the modules are found: it is the
+# working directory, or — for the *-other-cwd spellings — an entry of PYTHONPATH)
+SPELLINGS = ("relative", "dot-slash", "absolute", "dotdot", "absolute-other-cwd", "relative-other-cwd")
+
+
+def spelled_target(project, target_rel, spelling):
+    """-> (the target argument, working directory, directory to append to PYTHONPATH or None)"""
+    project = Path(project)
+    if spelling == "dot-slash":
+        return "./" + target_rel, project, None
+    if spelling == "absolute":
+        return str(project / target_rel), project, None
+    if spelling == "dotdot":
+        tops = sorted(d.name for d in project.iterdir() if d.is_dir())
+        if tops:
+            return f"{tops[0]}/../{target_rel}", project, None
+        return "./" + target_rel, project, None
+    if spelling == "absolute-other-cwd":
+        cwd = project.parent / (project.name + "-elsewhere")
+        cwd.mkdir(exist_ok=True)
+        return str(project / target_rel), cwd, project
+    if spelling == "relative-other-cwd":
+        cwd = project.parent / (project.name + "-elsewhere")
+        cwd.mkdir(exist_ok=True)
+        return f"../{project.name}/{target_rel}", cwd, project
+    return target_rel, project, None
+
+
+def run_cli(project, target, flags=(), spelling="relative"):
     """`flags`: exclusion patterns given on the command line (`-F p`)."""
     env = dict(os.environ, PYTHONHASHSEED="0")
     opts = [x for f in flags for x in ("-F", f)]
+    target, cwd, extra = spelled_target(project, target, spelling)
+    if extra is not None:
+        env["PYTHONPATH"] = os.pathsep.join([x for x in (env.get("PYTHONPATH"), str(extra)) if x])
     try:
-        p = subprocess.run([sys.executable, "-m", "rattr", "-w", "none", *opts, "-o", "results", target], cwd=str(project),
+        p = subprocess.run([sys.executable, "-m", "rattr", "-w", "none", *opts, "-o", "results", target], cwd=str(cwd),
                            capture_output=True, text=True, timeout=CLI_TIMEOUT, env=env)
     except subprocess.TimeoutExpired:
         return {"outcome": "timeout"}
@@ -621,7 +942,8 @@ def run_cli(project, target, flags=()):
     if "Traceback (most recent call last)" in p.stderr:
         last = [l for l in p.stderr.strip().splitlines() if l and not l.startswith(" ")][-1]
         return {"outcome": "crash", "exc": re.split(r"[:\s]", last)[0].split(".")[-1], "stderr": p.stderr[-600:]}
-    return {"outcome": f"exit-{p.returncode}", "stderr": p.stderr[-600:]}
+    fatal = re.findall(r"fatal\S*: .*?: (.*)", re.sub(r"\x1b\[[0-9;]*m", "", p.stderr))
+    return {"outcome": f"exit-{p.returncode}", "stderr": p.stderr[-600:], "fatal": fatal[-1][:120] if fatal else None}
 
 
 def toml_for(patterns):
@@ -631,27 +953,48 @@ def toml_for(patterns):
 
 
 CPY = r"""
-import importlib, json, sys
+import importlib, importlib.util, json, os, sys
 sys.path.insert(0, '.')
 out = []
-for importer, spelled in json.loads(sys.argv[1]):
+first, queries, names = json.loads(sys.argv[1])
+here = os.path.realpath('.')
+def rel(f):
+    return None if f is None else os.path.relpath(os.path.realpath(f), here)
+try:
+    if first:
+        importlib.import_module(first)
+except BaseException as e:
+    pass
+# what the path finder picks for each module name (find_spec imports the parent packages: the target went first)
+specs = []
+for n in names:
+    try:
+        sp = importlib.util.find_spec(n)
+        specs.append(None if sp is None else rel(sp.origin))
+    except BaseException as e:
+        specs.append('!' + type(e).__name__)
+for importer, spelled in queries:
     try:
         m = importlib.import_module(importer)
         o = eval(spelled, vars(m))
-        out.append([getattr(o, '__module__', None), getattr(o, '__qualname__', None)])
+        mod = getattr(o, '__module__', None)
+        out.append([mod, getattr(o, '__qualname__', None), rel(getattr(sys.modules.get(mod), '__file__', None))])
     except BaseException as e:
-        out.append(['!' + type(e).__name__, str(e)[:120]])
-print(json.dumps(out))
+        out.append(['!' + type(e).__name__, str(e)[:120], None])
+print(json.dumps([out, specs]))
 """
 
 
-def run_cpython(project, queries):
-    p = subprocess.run([sys.executable, "-c", CPY, json.dumps(queries)], cwd=str(project), capture_output=True, text=True,
-                       timeout=60, env=dict(os.environ, PYTHONDONTWRITEBYTECODE="1"))
+def run_cpython(project, queries, first=None, names=()):
+    """CPython's own binding of each spelled callee ([module, qualname, file of that module]) and the file
+    `importlib.util.find_spec` gives for each module name; `first` is imported first (the target: an import cycle
+    through it is entered there)."""
+    p = subprocess.run([sys.executable, "-c", CPY, json.dumps([first, queries, list(names)])], cwd=str(project),
+                       capture_output=True, text=True, timeout=60, env=dict(os.environ, PYTHONDONTWRITEBYTECODE="1"))
     try:
         return json.loads(p.stdout.strip().splitlines()[-1])
     except Exception:
-        return [["!harness", (p.stderr or p.stdout)[-200:]] for _ in queries]
+        return [[["!harness", (p.stderr or p.stdout)[-200:], None] for _ in queries], [None for _ in names]]
 
 
 def write_project(root, files):
@@ -765,7 +1108,7 @@ def local_calls(file_ir, import_irs, env):
     return {"env": envj, "calls": calls, "real": real, "wf": wf}
 
 
-def correspondence(project, target_rel, edges, user=(), probes=()):
+def correspondence(project, target_rel, edges, user=(), probes=(), spelling="relative"):
     """Real get_call_target / find_call_target_and_ir per cross-module call + the model request.
     `user`: the exclusion patterns in force (in-process: Arguments._excluded_imports).  The model computes the
     set of ignored modules itself from the pattern SOURCES (its own regex fragment + is_in_import_blacklist).
@@ -777,8 +1120,11 @@ def correspondence(project, target_rel, edges, user=(), probes=()):
     from rattr.results import IrCall, IrEnvironment, find_call_target_and_ir
 
     rows = []
+    # the target as the command line names it (in-process the working directory is always the project)
+    target_arg = spelled_target(project, target_rel, spelling)[0] if spelling in ("dot-slash", "absolute", "dotdot") \
+        else target_rel
     with impl.in_dir(str(project)):
-        impl.reset_config(target=Path(target_rel), _excluded_imports=list(user))
+        impl.reset_config(target=Path(target_arg), _excluded_imports=list(user))
         with impl.Tap():
             out = impl.outcome_of(F.parse_and_analyse_file)
         if out[0] != "ok":
@@ -852,6 +1198,104 @@ def correspondence(project, target_rel, edges, user=(), probes=()):
     return rows, verdicts
 
 
+def locator_rows(project, target_rel, names):
+    """The REAL locator on the project's own module names: `find_module_name_and_spec(name)` ->
+    [name, module name, origin relative to the project | None]; and the request for the Lean model of the locator
+    (`Locator.findModuleNameAndSpec` over the project's files as the one search root) and for the independent spec of
+    Python's path finder (`Spec.firstMatch`)."""
+    from rattr.module_locator.util import find_module_name_and_spec
+
+    root = Path(project).resolve()
+    rows = []
+    with impl.in_dir(str(project)):
+        impl.reset_config(target=Path(target_rel))
+        for name in names:
+            mn, spec = find_module_name_and_spec(name)
+            origin = None if spec is None else spec.origin
+            rel = None
+            if origin is not None:
+                try:
+                    rel = str(Path(origin).resolve().relative_to(root))
+                except ValueError:
+                    rel = "<outside the project>"
+            rows.append([name, mn, rel])
+    files = sorted(str(f.relative_to(root)) for f in root.rglob("*") if f.is_file())
+    req = {"roots": [[f.split("/") for f in files]], "stdlib": [],
+           "ops": [{"k": "find", "q": n.split(".")} for n in names]}
+    return rows, req
+
+
+def star_rows(project, target_rel, modules):
+    """`Context.expand_starred_imports` on every file of the project that holds a star import.
+    `modules`: module name -> relative path.  -> [(start module, what the REAL expansion appended as
+    [name, qualified_name], request for the Lean model `StarChain.expandFile`)].  The model gets, per file, who the
+    file is (derive_module_name_from_path, __init__ flag), the names its unexpanded root context declares and its star
+    statements AS WRITTEN; the qualified names of nested star imports are derived by the model."""
+    from rattr.config.state import enter_file
+    from rattr.models.context import compile_root_context
+    from rattr.models.symbol import Class, Func, Import
+    from rattr.module_locator.util import derive_module_name_from_path
+
+    root = Path(project).resolve()
+
+    def msym(s):
+        if isinstance(s, Func):
+            return {"k": "func", "name": s.name, "hasIr": True}
+        if isinstance(s, Class):
+            return {"k": "cls", "name": s.name, "hasIr": True}
+        if isinstance(s, Import):
+            return {"k": "imp", "name": s.name, "qual": s.qualified_name}
+        return {"k": "other", "name": s.name}
+
+    table, starts = {}, []
+    with impl.in_dir(str(project)):
+        impl.reset_config(target=Path(target_rel))
+        for mod, rel in modules.items():
+            origin = root / rel
+            tree = ast.parse(origin.read_text())
+            stars = []
+            for node in tree.body:
+                if isinstance(node, ast.ImportFrom) and node.names[0].name == "*":
+                    stars.append({"k": "star", "module": node.module} if node.level == 0 else
+                                 {"k": "relstar", "level": node.level, "module": node.module})
+
+            def compile_():
+                with enter_file(str(origin)):
+                    return compile_root_context(tree)
+
+            with impl.Tap():
+                o = impl.outcome_of(compile_)
+            if o[0] != "ok":
+                continue
+            syms = list(o[1].symbol_table.symbols)
+            table[mod] = {"base": derive_module_name_from_path(origin) or "", "isInit": origin.name == "__init__.py",
+                          "names": [x.name for x in syms], "stars": stars}
+            if stars:
+                starts.append((mod, origin, tree, [msym(x) for x in syms], len(syms)))
+        out = []
+        files = [[m, f] for m, f in table.items()]
+        for mod, origin, tree, ctx0, n0 in starts:
+            def expand_():
+                with enter_file(str(origin)):
+                    c = compile_root_context(tree)
+                    before = [x.name for x in c.symbol_table.symbols]
+                    c.expand_starred_imports()
+                    return before, list(c.symbol_table.symbols)
+
+            with impl.Tap():
+                o = impl.outcome_of(expand_)
+            if o[0] != "ok":
+                out.append((mod, {"failed": f"{o[0]}:{o[1]}"}, None))
+                continue
+            before, after = o[1]
+            if [x.name for x in after[:len(before)]] != before:
+                out.append((mod, {"failed": "expansion reordered the symbol table"}, None))
+                continue
+            real = [[x.name, getattr(x, "qualified_name", None)] for x in after[len(before):]]
+            out.append((mod, real, {"files": files, "start": table[mod], "ctx": ctx0}))
+    return out
+
+
 def canon_model(mo, with_record):
     t = mo["target"]
     tj = None if t is None else {"kind": t["kind"], "name": t["name"], "qual": t["qual"] if t["kind"] == "Import" else ""}
@@ -923,12 +1367,31 @@ def run(tier, seed, build):
                 "exactly. Correspondence additionally: the model computes the ignored-module set itself from the pattern sources "
                 "(its own regex fragment, validated against CPython's re every run) and its is_in_import_blacklist verdict is "
                 "compared with the real one on every existing module name and on probe names around every pattern. "
+                "Round 3: 30 % of the projects turn followed modules into packages with a stale same-named module file next to "
+                "them (Python imports the package; expected file = importlib.util.find_spec, checked per module), dedicated "
+                "projects put a plain directory next to a module; star re-export chains cross two / three package levels with "
+                "same-named decoy modules at the outer levels (chain starting in the target, a followed module or an __init__); "
+                "every project is run under a spelling of the target path (relative, ./, absolute, dir/../, other working "
+                "directory + PYTHONPATH); 40 % of the projects have an import cycle through the target (a followed module calls "
+                "back into a function that stays in the target), half of them under an absolute target path; stages `locator` "
+                "(real locator vs Lean model vs Lean spec vs CPython find_spec per module name) and `star_expand` (symbols the "
+                "real expand_starred_imports appends vs StarChain.expandFile); the pipeline2 stage runs 40 % of its projects "
+                "under an absolute target path. "
                 "non-trivial = distinct (form, callee kind, module depth, chain length) of a judged cross-module call, "
                 "distinct (name-pattern relation, form) of a judged call, distinct same-name row x role")
     rng = random.Random(seed)
+    import time as _time
+    stage_t = {"_last": _time.time()}
+
+    def lap(name):      # informational only (evidence: where the wall time goes); never enters a verdict
+        now = _time.time()
+        stage_t[name] = round(stage_t.get(name, 0) + now - stage_t["_last"], 1)
+        stage_t["_last"] = now
+
     per_cell = 5 if tier == "quick" else 30
     max_pairs = 230 if tier == "quick" else 900
-    want = [(f, k) for f in FORMS for k in KINDS for _ in range(per_cell)]
+    per_layout_cell = 2 if tier == "quick" else 12
+    want = [(f, k) for f in FORMS for k in KINDS for _ in range(per_layout_cell if f in LAYOUT_FORMS else per_cell)]
     rng.shuffle(want)
     tmp = Path(tempfile.mkdtemp(prefix="c06-"))     # no excluded name anywhere in the path
     model = common.Model()
@@ -941,9 +1404,11 @@ def run(tier, seed, build):
             layout = "pkg" if (needs_pkg or rng.random() < 0.25) else "root"
             if layout == "pkg" and (any(f == "relative-from-2" for f, _ in want) or rng.random() < 0.2):
                 layout = "pkg2"
-            sp = Split(rng, ents, order, layout, want).build()
+            sp = Split(rng, ents, order, layout, want, back_p=0.4).build()
             if rng.random() < 0.5:
                 sp.add_shadows(rng)
+            if rng.random() < 0.3:
+                sp.add_stale_twins(rng)
             i = len(pairs)
             d1, d2, d3 = tmp / f"s{i}", tmp / f"p{i}", tmp / f"n{i}"
             target_rel = sp.target_mod.replace(".", "/") + ".py"
@@ -954,13 +1419,21 @@ def run(tier, seed, build):
                 single_files["tp/tq/__init__.py"] = ""
             # ---- module naming and exclusion patterns (near-misses only: every module stays configured to be followed)
             neutral_files = sp.files()
-            mapping = nm.choose_renaming(rng, list(sp.modules), builtin) if rng.random() < 0.6 else {}
+            mapping = nm.choose_renaming(rng, sp.all_module_names(), builtin) if rng.random() < 0.6 else {}
             sp.apply_renaming(mapping)
             files = sp.files()
             paths = [str(d / rel) for d in (d1, d2) for rel in list(files) + list(single_files)]
-            pats = nm.choose_patterns(rng, list(sp.modules), paths, rng.randint(1, 3)) if rng.random() < 0.5 else []
+            pats = nm.choose_patterns(rng, sp.all_module_names(), paths, rng.randint(1, 3)) if rng.random() < 0.5 else []
             user = [x for _, x in pats]
             via_toml = bool(user) and rng.random() < 0.3
+            # ---- how the target is named on the command line: every spelling gets its share; half of the projects that
+            #      have an import cycle through the target are run under an ABSOLUTE target path (the followed modules'
+            #      origins are absolute: only then can the target file be met again under the very same path)
+            spelling = SPELLINGS[i % len(SPELLINGS)] if rng.random() < 0.55 else "relative"
+            if sp.back and rng.random() < 0.5:
+                spelling = rng.choice(["absolute", "absolute-other-cwd"])
+            if via_toml and spelling.endswith("-other-cwd"):
+                spelling = "absolute"      # pyproject.toml is looked up from the working directory
             if via_toml:
                 files = {**files, "pyproject.toml": toml_for(user)}
                 single_files = {**single_files, "pyproject.toml": toml_for(user)}
@@ -972,7 +1445,27 @@ def run(tier, seed, build):
             pairs.append({"i": i, "single": d1, "split": d2, "target": target_rel, "sp": sp, "ents": ents, "order": order,
                           "files": files, "single_src": single_files[target_rel], "user": user, "pattern_kinds": [k for k, _ in pats],
                           "flags": [] if via_toml else user, "via_toml": via_toml, "mapping": mapping,
-                          "twin": d3 if twin else None, "neutral_files": neutral_files})
+                          "twin": d3 if twin else None, "neutral_files": neutral_files, "spelling": spelling})
+        # ---- dedicated split projects: ONE module of the project has a plain directory of its name (no __init__.py) next
+        #      to it — Python imports the module file
+        n_hidden = 4 if tier == "quick" else 16
+        for _ in range(n_hidden):
+            ents, order = base_program(rng)
+            layout = rng.choice(["root", "pkg"])
+            sp = Split(rng, ents, order, layout, [], back_p=0.3).build().add_hidden_dir(rng)
+            i = len(pairs)
+            d1, d2 = tmp / f"s{i}", tmp / f"p{i}"
+            target_rel = sp.target_mod.replace(".", "/") + ".py"
+            single_files = {target_rel: single_source(ents, order)}
+            if layout != "root":
+                single_files["tp/__init__.py"] = ""
+            files = sp.files()
+            write_project(d1, single_files)
+            write_project(d2, files)
+            pairs.append({"i": i, "single": d1, "split": d2, "target": target_rel, "sp": sp, "ents": ents, "order": order,
+                          "files": files, "single_src": single_files[target_rel], "user": [], "pattern_kinds": [],
+                          "flags": [], "via_toml": False, "mapping": {}, "twin": None, "neutral_files": files,
+                          "spelling": "relative"})
         ded = []
         n_ded = 2 if tier == "quick" else 6
         for j in range(n_ded):
@@ -991,31 +1484,55 @@ def run(tier, seed, build):
                 write_project(d1, {"target.py": row["single"]})
                 ded.append({"i": i, "label": row["label"], "form": "from", "kind": row["kind"], "files": row["files"], "single": d1,
                             "single_src": row["single"], "split": d2, "caller": None, "pyvalid": True, "exact": row["exact"]})
+            # import cycles through the target with a call back into it x how the target is named
+            for row in (cycle_rows(rng, j) if (j == 0 or tier != "quick") else []):
+                for spelling in ("relative", "absolute", "absolute-other-cwd", "dot-slash"):
+                    i = len(pairs) + len(ded)
+                    d1, d2 = tmp / f"s{i}", tmp / f"p{i}"
+                    write_project(d2, row["files"])
+                    single_files = {row["target"]: row["single"]}
+                    if "/" in row["target"]:
+                        single_files["tp/__init__.py"] = ""
+                    write_project(d1, single_files)
+                    ded.append({"i": i, "label": row["label"], "form": "cycle", "kind": row["kind"], "files": row["files"],
+                                "single": d1, "single_src": row["single"], "split": d2, "caller": None, "pyvalid": True,
+                                "exact": row["exact"], "target": row["target"], "spelling": spelling,
+                                "drop_gets": row.get("drop_gets", []),
+                                "sig": f"import-cycle-through-target-changes-answer:{row['label']}:target-spelled-{spelling}"})
 
+        lap("generate")
         jobs = []
         for p in pairs:
             jobs.append((p["single"], p["target"], p["flags"]))
-            jobs.append((p["split"], p["target"], p["flags"]))
+            jobs.append((p["split"], p["target"], p["flags"], p["spelling"]))
             if p["twin"] is not None:
                 jobs.append((p["twin"], p["target"], []))
         for p in ded:
             if p["single"] is not None:
-                jobs.append((p["single"], "target.py", []))
-            jobs.append((p["split"], "target.py", []))
+                jobs.append((p["single"], p.get("target", "target.py"), []))
+            jobs.append((p["split"], p.get("target", "target.py"), [], p.get("spelling", "relative")))
         with ThreadPoolExecutor(max_workers=16) as ex:
             outs = list(ex.map(lambda j: run_cli(*j), jobs))
-            cpy = list(ex.map(lambda p: run_cpython(p["split"], [[e.importer, e.spelled] for e in p["sp"].edges]), pairs))
+            cpy = list(ex.map(lambda p: run_cpython(p["split"], [[e.importer, e.spelled] for e in p["sp"].edges],
+                                                    p["sp"].target_mod, p["sp"].all_module_names()), pairs))
         it = iter(outs)
 
+        lap("cli-runs")
         # ---- self-check: CPython binds every spelled callee to the moved definition; so does the Lean spec
         spec_reqs = []
-        for p, got in zip(pairs, cpy):
+        for p, (got, specs) in zip(pairs, cpy):
             sp = p["sp"]
             for ed, g in zip(sp.edges, got):
-                want_obj = [ed.module, ed.qualname]
+                # module, qualified name AND file: two files may compete for one module name
+                want_obj = [ed.module, ed.qualname, sp.path_of(ed.module)]
                 if g != want_obj:
                     res.internal_errors.append({"what": "generator: CPython does not bind the spelled callee to the moved "
                                                 "definition", "edge": ed.meta(), "cpython": g, "files": p["files"]})
+            for mod, origin in zip(sp.modules, specs):
+                if origin != sp.path_of(mod):
+                    res.internal_errors.append({"what": "generator: importlib.util.find_spec does not pick the file the "
+                                                "project's module table names", "module": mod, "find_spec": origin,
+                                                "expected": sp.path_of(mod), "files": p["files"]})
             spec_reqs.append(("import_spec", {"modules": sp.spec_project(), "fuel": 12,
                                               "queries": [[e.importer, e.spelled] for e in sp.edges]}))
         for p, mo in zip(pairs, model.batch(spec_reqs)):
@@ -1027,6 +1544,7 @@ def run(tier, seed, build):
                     res.internal_errors.append({"what": "Lean spec disagrees with CPython's binding", "edge": ed.meta(),
                                                 "spec": m, "files": p["files"]})
 
+        lap("self-check")
         # ---- the pair oracle
         for p in pairs:
             o1, o2 = next(it), next(it)
@@ -1035,8 +1553,17 @@ def run(tier, seed, build):
             res.evaluations += 1
             forms = sorted({e.form for e in sp.edges})
             case = {"files": p["files"], "single": p["single_src"], "target": p["target"], "flags": p["flags"],
-                    "edges": [e.meta() for e in sp.edges]}
+                    "spelling": p["spelling"], "edges": [e.meta() for e in sp.edges]}
             res.count("config:" + ("no-user-pattern" if not p["user"] else "toml" if p["via_toml"] else "cli-F"))
+            res.count("target-spelling:" + p["spelling"])
+            for tag in sp.layout_tags:
+                res.count("layout:" + tag)
+            if sp.decoys:
+                res.count("layout:same-named-decoy-module", len(sp.decoys))
+            if sp.back:
+                res.count("import-cycle-through-target:" + p["spelling"])
+                for ed in sp.back:
+                    res.nontrivial.add(common.digest(["back", ed.form, ed.kind, p["spelling"]]))
             for k in p["pattern_kinds"]:
                 res.count("user-pattern:" + k)
             res.count("project-naming:" + nm.relation_tag(set(sp.modules), builtin, p["user"]))
@@ -1045,13 +1572,40 @@ def run(tier, seed, build):
             if o1["outcome"] != "ok":
                 res.internal_errors.append({"what": "single-file reference did not run", "out": o1, "source": p["single_src"]})
                 continue
+            p["split_ok"] = o2["outcome"] == "ok"
             if o2["outcome"] != "ok":
                 exc = o2.get("exc", o2["outcome"].capitalize())
                 sig = f"import-form-crash:{'+'.join(forms)}:{exc}"
-                if o3 is not None and o3["outcome"] == "ok":
+                spelling_matters = False
+                if p["spelling"] != "relative" and not sp.hidden:
+                    # does the SAME project run when the target is named by its plain relative path?
+                    o2r = run_cli(p["split"], p["target"], p["flags"])
+                    res.count("rerun-with-relative-target:" + o2r["outcome"])
+                    spelling_matters = o2r["outcome"] == "ok"
+                if spelling_matters:
+                    rel_in_target = any(js["k"] in ("rel", "relstar") for _, js in sp.modules[sp.target_mod]["imports"])
+                    sig = (f"target-path-spelling-changes-outcome:{p['spelling']}:{exc}"
+                           + (":import-cycle-through-target" if sp.back else "")
+                           + (":relative-import-in-target" if rel_in_target else ""))
+                elif o3 is not None and o3["outcome"] == "ok":
                     # the same project runs under neutral module names and without user patterns
                     sig = (f"not-excluded-module-treated-differently:"
                            f"{nm.relation_tag(set(sp.modules), builtin, p['user'])}:{exc}")
+                elif sp.hidden:
+                    # ONE module of this project has a plain directory of its name next to it
+                    hid = next(iter(sp.hidden))
+                    msg = o2.get("fatal") or ""
+                    named = re.search(r"unable to find module '([^']*)'", msg)
+                    if o2["outcome"] == "crash":
+                        how = "crash-" + exc
+                    elif named and (hid == named.group(1).lstrip(".") or hid.startswith(named.group(1).lstrip(".") + ".")
+                                    or named.group(1).lstrip(".").startswith(hid + ".")
+                                    or hid.endswith("." + named.group(1).lstrip("."))):
+                        how = "fatal-unable-to-find-module"
+                    else:
+                        how = "other-" + exc
+                    sig = f"module-next-to-plain-directory-not-imported:{how}"
+                    case = {**case, "module_with_plain_directory": hid, "named_by": sp.hidden_reached_by()}
                 res.count("outcome:" + sig)
                 res.violations.append({"signature": sig, "case": case, "detail": o2})
                 continue
@@ -1140,6 +1694,11 @@ def run(tier, seed, build):
                             tag = nm.relation_tag([ed.module] + ed.hops, builtin, p["user"])
                             res.count("edge-naming:" + tag)
                             res.nontrivial.add(common.digest(["naming", tag, ed.form]))
+                            if ed.module in sp.stale:
+                                res.count("edge-into:package-next-to-stale-module")
+                                res.nontrivial.add(common.digest(["stale-twin", ed.form, ed.kind, ed.depth]))
+                            if p["spelling"] != "relative":
+                                res.nontrivial.add(common.digest(["spelling", p["spelling"], ed.form]))
                             want_marks = has_marks(ref, ents[c].marks)
                             if want_marks and not has_marks(got, ents[c].marks):
                                 failed.append(ed)
@@ -1155,6 +1714,14 @@ def run(tier, seed, build):
                 if failed:
                     for ed in failed:
                         sig = f"import-form-not-followed:{ed.form}:{ed.kind}"
+                        # the accesses of a same-named definition in a file Python never imports appear instead
+                        if any(h in sp.hidden for h in [ed.module] + ed.hops):
+                            # the run went through, but the module that has a plain directory next to it was not located
+                            sig = "module-next-to-plain-directory-not-imported:not-followed"
+                        elif has_marks(got, {f"stale_{ed.v}"}):
+                            sig = f"wrong-file-followed:stale-module-instead-of-package:{ed.kind}"
+                        elif has_marks(got, {f"decoy_{ed.v}"}):
+                            sig = f"wrong-file-followed:same-named-decoy-module:{ed.form}:{ed.kind}"
                         res.count("verdict:" + sig)
                         res.violations.append({"signature": sig, "case": {"_edge": ed.meta(), **case}, "function": fn,
                                                "edge": ed.meta(), "reference": ref, "split": got})
@@ -1193,10 +1760,13 @@ def run(tier, seed, build):
             o2 = next(it)
             res.evaluations += 1
             res.count(f"dedicated:{p['label']}:{o2['outcome']}")
-            case = {"files": p["files"], "single": p["single_src"], "label": p["label"]}
+            case = {"files": p["files"], "single": p["single_src"], "label": p["label"], "target": p.get("target", "target.py"),
+                    "spelling": p.get("spelling", "relative")}
             if o2["outcome"] != "ok":
                 exc = o2.get("exc", o2["outcome"].capitalize())
                 sig = (f"import-cycle-crash:{exc}" if p["label"] == "reexport-cycle" else f"import-form-crash:{p['form']}:{exc}")
+                if p.get("sig"):
+                    sig = f"{p['sig']}:{exc}"
                 res.violations.append({"signature": sig, "case": case, "detail": o2})
                 continue
             if o1 is None:
@@ -1209,11 +1779,15 @@ def run(tier, seed, build):
                 for fn, role in p["exact"]:
                     ref = {k: sorted(v) for k, v in o1["results"].get(fn, {}).items()}
                     got = {k: sorted(v) for k, v in o2["results"].get(fn, {}).items()}
-                    res.nontrivial.add(common.digest(["same-name", p["label"], role]))
+                    if p.get("drop_gets") and "gets" in got:
+                        got["gets"] = [g for g in got["gets"] if g not in p["drop_gets"]]
+                    res.nontrivial.add(common.digest(["same-name", p["label"], role, p.get("spelling")]))
                     if ref and ref == got:
                         res.count(f"dedicated:same-name:{p['label']}:{role}:same")
                         continue
                     sig = f"same-named-definition-confused:{p['label']}:{role}"
+                    if p.get("sig"):
+                        sig = p["sig"]
                     res.count("verdict:" + sig)
                     res.violations.append({"signature": sig, "case": case, "function": fn, "reference": ref, "split": got})
                 continue
@@ -1229,14 +1803,98 @@ def run(tier, seed, build):
             else:
                 res.count(f"dedicated:{p['label']}:same")
 
+        lap("pair-oracle")
+        # ---- WHICH FILE a module name denotes: the real locator vs its Lean model (`Locator.findModuleInPath`, the one
+        #      C13 proves things about) vs Python's path finder (Lean spec `Spec.firstMatch`, validated against CPython's
+        #      importlib.util.find_spec) on every module name of every split project — incl. a package next to a stale
+        #      module file, a module next to a plain directory, same-named decoy modules at several package levels
+        loc_reqs, loc_metas = [], []
+        for p, (_, specs) in zip(pairs, cpy):
+            names = p["sp"].all_module_names()
+            rows, req = locator_rows(p["split"], p["target"], names)
+            loc_reqs.append(("locator", req))
+            loc_metas.append((p, rows, dict(zip(names, specs))))
+        for (p, rows, cpy_spec), mo in zip(loc_metas, model.batch(loc_reqs)):
+            sp = p["sp"]
+            if isinstance(mo, dict) and "__error__" in mo:
+                res.internal_errors.append({"what": "locator driver error", "detail": mo})
+                continue
+            for (name, mn, rel), m in zip(rows, mo):
+                res.evaluations += 1
+                found = m["found"]
+                m_mod = None if found is None else ".".join(found["module"])
+                m_org = None
+                if found is not None and found["spec"]["origin"] is not None:
+                    o = found["spec"]["origin"]
+                    m_org = "/".join(o["file"][1]) if "file" in o else "<outside the project>"
+                spec_org = None if m["specFirst"] is None else "/".join(m["specFirst"][1])
+                layout = ("package-next-to-stale-module" if name in sp.stale else
+                          "module-next-to-plain-directory" if name in sp.hidden else
+                          "same-named-decoy-module" if name in sp.decoys else
+                          "package" if sp.modules[name]["pkg"] else "module")
+                res.count("locator:" + layout)
+                res.nontrivial.add(common.digest(["locator", layout, name.count(".")]))
+                py_org = cpy_spec.get(name)
+                if spec_org != py_org:
+                    res.internal_errors.append({"what": "Lean spec of Python's path finder disagrees with importlib.util.find_spec",
+                                                "module": name, "spec": spec_org, "cpython": py_org, "files": sorted(p["files"])})
+                if [m_mod, m_org] != [mn, rel]:
+                    res.disagreements.append({"case": {"locator": name, "files": sorted(p["files"]), "layout": layout},
+                                              "impl": [mn, rel], "model": [m_mod, m_org]})
+                if mn != name:
+                    rel = None          # only a parent package was located
+                if rel != py_org:
+                    sig = f"followed-file-is-not-the-imported-file:{layout}:" + ("not-found" if rel is None else "other-file")
+                    res.count("verdict:" + sig)
+                    res.violations.append({"signature": sig, "case": {"files": p["files"], "target": p["target"], "flags": [],
+                                                                      "module": name},
+                                           "rattr_follows": rel, "python_imports": py_org})
+
+        lap("locator")
+        # ---- `expand_starred_imports` as a walk over files: the symbols the real expansion appends vs `StarChain.expandFile`
+        st_reqs, st_metas = [], []
+        for p in pairs:
+            if not p.get("split_ok", True):
+                continue
+            sp = p["sp"]
+            star_js = [js for m in sp.modules.values() for _, js in m["imports"] if js["k"] in ("star", "relstar")]
+            if not star_js:
+                continue
+            # the files the walk can reach — or WOULD reach if a nested statement were resolved against another file:
+            # every module whose last component is named by some star statement (same-named decoys included), and every
+            # module that itself holds a star import
+            leafs = {(js.get("module") or "").split(".")[-1] for js in star_js}
+            holders = {mn for mn, m in sp.modules.items() if any(js["k"] in ("star", "relstar") for _, js in m["imports"])}
+            mods = {m: sp.path_of(m) for m in sp.modules if m in holders or m.split(".")[-1] in leafs}
+            mods.update({d: d.replace(".", "/") + ".py" for d in sp.decoys if d not in sp.modules and d.split(".")[-1] in leafs})
+            for start, real, req in star_rows(p["split"], p["target"], mods):
+                if req is None:
+                    res.internal_errors.append({"what": "star expansion of a generated file failed in-process", "file": start,
+                                                "detail": real, "files": p["files"]})
+                    continue
+                st_reqs.append(("star_expand", req))
+                st_metas.append((p, start, real))
+        for (p, start, real), mo in zip(st_metas, model.batch(st_reqs)):
+            res.evaluations += 1
+            depth = len({q.rsplit(".", 1)[0] for _, q in real if q})
+            res.count(f"star-expand:modules-expanded:{min(depth, 4)}")
+            res.nontrivial.add(common.digest(["star-expand", depth, start.count(".")]))
+            if mo != real:
+                res.disagreements.append({"case": {"star_expand": start, "files": p["files"]}, "impl": real, "model": mo})
+
+        lap("star-expand")
         # ---- correspondence: model vs the real call-site target and the real find_call_target_and_ir
         reqs, metas, bl_reqs, bl_metas, lc_reqs, lc_metas = [], [], [], [], [], []
         n_corr = len(pairs) if tier == "quick" else min(len(pairs), 400)
         for p in pairs[:n_corr]:
             sp = p["sp"]
+            if not p.get("split_ok", True):
+                res.skipped_outside_fragment += 1      # the CLI run of this project failed (a violation is recorded)
+                continue
             for e in sp.edges:
                 e.assigned, e.arg = p["ents"][e.v].assigned, p["ents"][e.v].arg
-            rows, err = correspondence(p["split"], p["target"], sp.edges, p["user"], blacklist_probes(rng, builtin, p["user"]))
+            rows, err = correspondence(p["split"], p["target"], sp.edges, p["user"], blacklist_probes(rng, builtin, p["user"]),
+                                       p["spelling"])
             if rows is None:
                 res.internal_errors.append({"what": "in-process analysis failed", "detail": err, "files": p["files"]})
                 continue
@@ -1254,7 +1912,7 @@ def run(tier, seed, build):
                 reqs.append(("resolve_import", req))
                 metas.append((p, ed, im))
         for p in ded:
-            if not p.get("exact"):
+            if not p.get("exact") or p.get("sig"):
                 continue
             rows, err = correspondence(p["split"], "target.py", [])
             if rows is None:
@@ -1333,9 +1991,13 @@ def run(tier, seed, build):
                 if o != exp:
                     res.internal_errors.append({"what": "Lean regex fragment disagrees with CPython's re", "pattern": src,
                                                 "subject": subj, "model": o, "cpython": exp})
+        lap("correspondence")
         # ---- the MULTI-file pipeline model (`Pipeline2.run2`) vs the real run with imports followed
         from props import pipeline2
         pipeline2.run_pipeline2_stage(res, random.Random(seed + 7206), 40 if tier == "quick" else 500, model)
+        lap("pipeline2")
+        stage_t.pop("_last")
+        res.extra["stage_seconds_informational"] = stage_t
         res.extra["pairs"] = len(pairs)
         res.extra["uncovered_cells"] = len(want)
     finally:
@@ -1352,6 +2014,14 @@ def run(tier, seed, build):
         "[interp] the single-file version is the reference; programs come from the clean ProgGen fragment (forest call graph, "
         "bare-parameter arguments) so that the reference itself is well-defined (C03/C05 findings excluded)",
         "re-export cycles of a NAME (a: from b import f / b: from a import f) are not valid Python; only termination is demanded",
+        "[interp] which FILE a module name denotes is Python's choice (importlib.util.find_spec with the project as sys.path[0]): "
+        "a package M/__init__.py shadows M.py, M.py beats a plain directory M/; the single-file reference holds the "
+        "definitions of the file Python imports",
+        "[interp] the answer does not depend on how the target file is named on the command line (relative, ./, absolute, "
+        "through dir/.., from another working directory with the project on PYTHONPATH): each spelling the CLI accepts "
+        "and under which the project's modules are locatable is a configuration the property quantifies over",
+        "import cycles through the target are generated as valid Python (the target's imports follow the definitions a "
+        "followed module takes from it; `import target` back edges otherwise)",
         "`import pkg; pkg.sub.f()` with nothing importing pkg.sub is not valid Python either (AttributeError); reported as a crash class",
         "follow level 1 (local modules); exclusion patterns are present but never match a generated module in full: what an "
         "excluded module does to the answer and the follow-level rungs are C12's",
@@ -1375,7 +2045,8 @@ def replay(path):
         tmp = Path(tempfile.mkdtemp(prefix="rattr-c06-replay-"))
         try:
             write_project(tmp, files)
-            print(json.dumps(run_cli(tmp, case.get("target", "target.py"), case.get("flags") or []), indent=1)[:4000])
+            print(json.dumps(run_cli(tmp, case.get("target", "target.py"), case.get("flags") or [],
+                                     case.get("spelling") or "relative"), indent=1)[:4000])
         finally:
             shutil.rmtree(tmp, ignore_errors=True)
     return 0
